@@ -191,7 +191,18 @@ def inject(crate):
     for h in spec.get("body_hooks", []):
         p = os.path.join(crate, h["file"])
         s = open(p).read()
-        st, bo, en = find_fn_span(s, h["fn"])
+        base = 0
+        region = s
+        if h.get("in"):
+            # restrict the search to the (unique) impl block whose header matches h["in"]
+            ms = list(re.finditer(h["in"], s, flags=re.M))
+            if len(ms) != 1:
+                raise Infra("lost anchor: impl /%s/ matches %d times in %s" % (h["in"], len(ms), h["file"]))
+            ib = s.index("{", ms[0].start())
+            base = ib
+            region = s[ib:match_brace(s, ib)]
+        st, bo, en = find_fn_span(region, h["fn"])
+        bo += base
         s = s[: bo + 1] + "\n" + h["insert"] + "\n" + s[bo + 1 :]
         open(p, "w").write(s)
         added.append("cfg(kani) hook at top of %s in %s" % (h["fn"], h["file"]))
@@ -264,7 +275,7 @@ def classify_harness(res):
     failed = []
     undecided = []
     covers = {}
-    canary_ok = canary_bad = 0
+    canaries = {}
     for c in res.get("checks", []):
         st = c.get("status")
         cat = c.get("category", "")
@@ -272,10 +283,8 @@ def classify_harness(res):
         if "CANARY:" in desc:
             # reachability witness for harnesses whose cover goals CBMC cannot evaluate (status ERROR on very large
             # formulas): an assertion placed after all real checks that MUST fail; if it holds the harness is vacuous
-            if st == "Failure":
-                canary_ok += 1
-            elif st != "Unreachable" or True:
-                canary_bad += 1 if st != "Failure" else 0
+            # (CBMC may duplicate the statement: a canary is fine if ANY of its instances fails)
+            canaries[desc] = canaries.get(desc, False) or st == "Failure"
             continue
         if cat == "cover":
             if st == "Error":
@@ -295,7 +304,9 @@ def classify_harness(res):
     cov_sat = len([k for k, v in covers.items() if v])
     cov_unsat = len([k for k, v in covers.items() if not v])
     status = res.get("status")
-    if canary_bad:
+    canary_ok = len([k for k, v in canaries.items() if v])
+    canary_bad = len([k for k, v in canaries.items() if not v])
+    if canary_bad and not failed:
         return "unknown", failed, (cov_sat, cov_unsat), "vacuity guard: %d canary assertion(s) did not fail (precondition contradictory or end of harness unreachable)" % canary_bad
     if canary_ok and not failed and not undecided and not cov_unsat:
         return "proved", [], (cov_sat + canary_ok, cov_unsat), ""
